@@ -37,34 +37,38 @@ let rec z_of_int (i : int) : z = z_of_string (string_of_int i)
 let split_ws (s : string) : string list =
   List.filter (fun t -> t <> "") (String.split_on_char ' ' (String.trim s))
 
-let read_lines (path : string) : string list =
-  let ic = open_in path in
-  let rec go acc = match input_line ic with
-    | l -> go (l :: acc)
-    | exception End_of_file -> close_in ic; List.rev acc in
-  go []
+(* the files are read one case at a time (a shard of a thorough run holds tens of MB of 64-bit numbers, each of which is a
+   65-constructor [positive] once parsed: keeping a whole shard in memory cost several GB per driver process) *)
+let next_line ic = match input_line ic with
+  | l -> Some l
+  | exception End_of_file -> None
 
-(* cases: (cfg, ops) in file order *)
-let parse_cases (lines : string list) =
-  let cases = ref [] and cur_cfg = ref [] and cur_ops = ref [] in
-  List.iter (fun l ->
-    match split_ws l with
-    | [] -> ()
-    | "case" :: _id :: cfg -> cur_cfg := List.map z_of_string cfg; cur_ops := []
-    | ["end"] -> cases := (!cur_cfg, List.rev !cur_ops) :: !cases
-    | code :: args -> cur_ops := (z_of_string code, List.map z_of_string args) :: !cur_ops) lines;
-  List.rev !cases
+(* next case of the case file: (cfg, ops) *)
+let next_case ic =
+  let cur_cfg = ref [] and cur_ops = ref [] in
+  let rec go () = match next_line ic with
+    | None -> None
+    | Some l ->
+      (match split_ws l with
+       | [] -> go ()
+       | "case" :: _id :: cfg -> cur_cfg := List.map z_of_string cfg; cur_ops := []; go ()
+       | ["end"] -> Some (!cur_cfg, List.rev !cur_ops)
+       | code :: args -> cur_ops := (z_of_string code, List.map z_of_string args) :: !cur_ops; go ()) in
+  go ()
 
-let parse_obs (lines : string list) =
-  let all = ref [] and cur = ref [] in
-  List.iter (fun l ->
-    match split_ws l with
-    | [] -> ()
-    | "case" :: _ -> cur := []
-    | ["end"] -> all := List.rev !cur :: !all
-    | "o" :: vals -> cur := List.map z_of_string vals :: !cur
-    | _ -> ()) lines;
-  List.rev !all
+(* next case of the observation file *)
+let next_obs ic =
+  let cur = ref [] in
+  let rec go () = match next_line ic with
+    | None -> None
+    | Some l ->
+      (match split_ws l with
+       | [] -> go ()
+       | "case" :: _ -> cur := []; go ()
+       | ["end"] -> Some (List.rev !cur)
+       | "o" :: vals -> cur := List.map z_of_string vals :: !cur; go ()
+       | _ -> go ()) in
+  go ()
 
 let rec take n l = if n <= 0 then [] else match l with [] -> [] | x :: r -> x :: take (n - 1) r
 
@@ -76,18 +80,23 @@ let () =
   let fam = z_of_string Sys.argv.(1) in
   let mask_s = Sys.argv.(2) in
   let oracle_s = Sys.argv.(3) in
-  let cases = parse_cases (read_lines Sys.argv.(4)) in
-  let obs = parse_obs (read_lines Sys.argv.(5)) in
+  let cic = open_in Sys.argv.(4) and oic = open_in Sys.argv.(5) in
   let (run, oracles) = assoc_z fam families in
   let mask_codes = if mask_s = "all" then [] else List.map z_of_string (String.split_on_char ',' mask_s) in
   let mask = if mask_s = "all" then (fun _ -> true) else (fun c -> List.mem c mask_codes) in
   let oracle_ids = if oracle_s = "-" then [] else List.map z_of_string (String.split_on_char ',' oracle_s) in
   (* the harness stops a case at its first panic: keep only the ops that have an observation *)
   let mk (cfg, ops) ob = ex_mkCase cfg (take (List.length ob) ops) ob in
-  let cs = List.map2 mk cases obs in
+  let next () = match next_case cic, next_obs oic with
+    | Some c, Some ob -> Some (mk c ob)
+    | None, None -> None
+    | _ -> failwith "case file and observation file have different numbers of cases" in
   if Array.length Sys.argv > 7 && Sys.argv.(6) = "diff" then begin
     let i = int_of_string Sys.argv.(7) in
-    let c = List.nth cs i in
+    let rec nth k = match next () with
+      | None -> failwith "no such case"
+      | Some c -> if k = 0 then c else nth (k - 1) in
+    let c = nth i in
     (match ex_first_diff (run c.c_cfg c.c_ops) c.c_obs with
      | None -> print_endline "nodiff"
      | Some ((idx, m), cr) ->
@@ -98,12 +107,17 @@ let () =
   end else begin
     let buf = Buffer.create 256 in
     Buffer.add_string buf "corr";
-    List.iteri (fun i c -> if not (ex_corr_ok_masked mask run c) then Buffer.add_string buf (Printf.sprintf " %d" i)) cs;
-    print_endline (Buffer.contents buf);
-    List.iter (fun oid ->
-      let o = assoc_z oid oracles in
+    let obufs = List.map (fun oid ->
       let b = Buffer.create 256 in
       Buffer.add_string b ("oracle " ^ string_of_z oid);
-      List.iteri (fun i c -> if not (o c) then Buffer.add_string b (Printf.sprintf " %d" i)) cs;
-      print_endline (Buffer.contents b)) oracle_ids
+      (assoc_z oid oracles, b)) oracle_ids in
+    let rec loop i = match next () with
+      | None -> ()
+      | Some c ->
+        if not (ex_corr_ok_masked mask run c) then Buffer.add_string buf (Printf.sprintf " %d" i);
+        List.iter (fun (o, b) -> if not (o c) then Buffer.add_string b (Printf.sprintf " %d" i)) obufs;
+        loop (i + 1) in
+    loop 0;
+    print_endline (Buffer.contents buf);
+    List.iter (fun (_, b) -> print_endline (Buffer.contents b)) obufs
   end
